@@ -199,8 +199,10 @@ def builtin_exc_mro(name):
 class Model:
     VALUE_CLASSES = ("TimePoint", "Duration", "TimeZone", "TimeRecurrence")
 
-    def __init__(self, sources, inline=True):
+    def __init__(self, sources, inline=True, canon=False):
         """sources: {module short name: (relpath, text)}"""
+        self.sources = sources
+        self.canon = canon
         self.modules = {}
         trees = {}
         for name, (relpath, text) in sorted(sources.items()):
@@ -215,6 +217,10 @@ class Model:
                 self.inline_report = inline_trees(trees)
             except RecursionError:
                 raise AnalysisError("helper inlining did not terminate")
+        self.canon_report = {}
+        if canon:
+            from .canon import canon_trees
+            self.canon_report = canon_trees(trees)
         for name, (relpath, text) in sorted(sources.items()):
             self.modules[name] = Module(name, relpath, text, trees[name])
         self.classes = {}
@@ -240,7 +246,7 @@ class Model:
         return out
 
     @classmethod
-    def load(cls, repo=None, overrides=None):
+    def load(cls, repo=None, overrides=None, canon=False):
         repo = repo or REPO
         sources = {}
         for name, rel in cls.package_files(repo).items():
@@ -249,7 +255,12 @@ class Model:
         for name, text in (overrides or {}).items():
             rel = sources.get(name, (os.path.join(PKG_DIR, name + ".py"),))[0]
             sources[name] = (rel, text)
-        return cls(sources)
+        return cls(sources, canon=canon or bool(
+            os.environ.get("SA_FORCE_CANON")))
+
+    def canonical(self):
+        """The same sources, analysed in canonical statement form."""
+        return Model(self.sources, canon=True)
 
     def texts(self):
         return {n: m.text for n, m in self.modules.items()}
